@@ -271,6 +271,25 @@ def family_data():
     return P
 
 
+def family_elif():
+    P = []
+
+    def add(name, lines):
+        P.append(prog(name, "F-ctl", lines))
+    add("elif_else", ["x = 0", "if a < b:", "    out(1)", "    x = 1", "elif a < 5:", "    out(2)", "    x = 2", "else:", "    out(3)", "    x = 3",
+                      "return x * 10 + a"])
+    add("elif_no_else", ["x = 0", "if a < b:", "    x = 1", "elif c:", "    x = 2", "out(x)", "return x - b"])
+    add("elif_elif_else", ["if a == 0:", "    x = 10", "elif a == 1:", "    x = 20", "elif b > a:", "    x = 30", "else:", "    x = 40",
+                           "out(x)", "return x + b"])
+    add("elif_nested", ["x = a", "if c:", "    if a < b:", "        x = 1", "    elif a == b:", "        x = 2", "    else:", "        x = 3",
+                        "elif b < 0:", "    x = 4", "else:", "    x = 5", "    out(x)", "return x"])
+    add("elif_return_arms", ["if a < b:", "    return 1", "elif a == b:", "    return 2", "else:", "    out(a)", "return 3"])
+    add("elif_in_loop", ["s = 0", "for j in range(b):", "    if j == a:", "        s = s + 1", "    elif c:", "        s = s + 10", "    else:",
+                         "        s = s + 100", "return s"])
+    P[-1]["bounds"] = dict(LOOP_BOUNDS)
+    return P
+
+
 # ---- witnesses of known lowering defects (one program each; fingerprints in known_findings.json) ----------------------
 def witnesses():
     W = []
@@ -283,12 +302,12 @@ def witnesses():
 
 
 def quick_family(seed=0):
-    progs = family_expr() + family_fun() + family_cls() + family_data()
+    progs = family_expr() + family_fun() + family_cls() + family_data() + family_elif()
     ctl = family_ctl(max_n=3, depth=2, seed=seed)
     return progs, ctl
 
 
 def thorough_family(seed=0):
-    progs = family_expr() + family_fun() + family_cls() + family_data()
+    progs = family_expr() + family_fun() + family_cls() + family_data() + family_elif()
     ctl = family_ctl(max_n=4, depth=2, seed=seed)
     return progs, ctl
